@@ -774,6 +774,7 @@ func genC05(c *Ctx) {
 	genC05Dec(c)
 	genC05R4(c)
 	genC05R6(c)
+	genC05R8(c)
 }
 
 // --- 7. decoder configurations x value types that use the decoder's state
